@@ -489,6 +489,69 @@ func (c *ctlRun) final(steps []CtlStep) {
 			}
 		}
 	}
+	// C11: connect / disconnect / refusal records, per attempt
+	recs := w.Log.Records()
+	reasonMsg := map[string]string{"missing": iobroker.LMKeyMissing, "disconnecting": iobroker.LMDisconnecting,
+		"dup": iobroker.LMAlreadyConnected, "badkey": iobroker.LMIncorrectKey}
+	dirWord := map[string]string{"in": string(iobroker.LVInput), "out": string(iobroker.LVOutput)}
+	for _, st := range steps {
+		if st.Act.N != "Admit" {
+			continue
+		}
+		h := c.half(st.Act.A)
+		if h == nil {
+			continue
+		}
+		var conn, disc, errs int
+		var errMsgs []string
+		for _, r := range recs {
+			if r.Attrs["vtag"] != h.Addr {
+				continue
+			}
+			d, hasDir := r.Attrs[iobroker.LKDirection]
+			if hasDir && d != dirWord[h.Dir] {
+				continue
+			}
+			if !hasDir && h.IO {
+				continue
+			}
+			switch r.Msg {
+			case iobroker.LMNewConnection:
+				conn++
+			case iobroker.LMDisconnected:
+				disc++
+			case iobroker.LMShellIO:
+			default:
+				if r.Level >= 8 { // slog.LevelError
+					errs++
+					errMsgs = append(errMsgs, r.Msg)
+				}
+			}
+		}
+		switch st.Act.O {
+		case "accepted":
+			wantDisc := 0
+			if h.Done {
+				wantDisc = 1
+			}
+			if conn != 1 || disc != wantDisc {
+				c.div("C11", "connect-records", "attempt %d (accepted, released=%v) has %d connect and %d disconnect records", h.ID, h.Done, conn, disc)
+			}
+		case "refused":
+			ok := errs == 1
+			if ok {
+				ok = false
+				for _, rs := range st.Act.Rs {
+					if reasonMsg[rs] == errMsgs[0] {
+						ok = true
+					}
+				}
+			}
+			if !ok || conn != 0 {
+				c.div("C11", "refusal-record", "refused attempt %d has error records %v (allowed reasons %v) and %d connect records", h.ID, errMsgs, st.Act.Rs, conn)
+			}
+		}
+	}
 	for _, cl := range lines {
 		if !cl.Plain {
 			continue
